@@ -1,12 +1,16 @@
 // C17 — command-line arguments are classified and type-checked exactly.
-// E-ENUM on the real Arguments class: all token lists <= 5 over a 13-token grammar against a
-// reference classifier (three constructors + the string constructor), every integer in
-// [-70000,70000] x rendering x IntFormat x 8/16/32-bit target against a reference numeral grammar,
-// boundary numerals x eight targets, garbage prefixes/suffixes, float literals against
-// std::from_chars, and every subset of getters before assert_none_unused.
+// E-ENUM on the real Arguments class.  This file: all token lists <= 5 over a 13-token grammar against a
+// reference classifier (three constructors + the string constructor); shell renderings of command lines;
+// every integer in [-70000,70000] x rendering x IntFormat x 8/16/32-bit target against a reference numeral
+// grammar; boundary numerals (2^k-1, 2^k, 2^k+1 for every k <= 65, both signs), garbage and long texts x
+// fourteen integer targets x five access paths; float literals against std::from_chars; absent and
+// present-but-empty arguments for every target (C17_absent.hh).
+// Round 2 adds C17_hist.cc (call histories, boundary positions/names, copies), C17_forms.cc (every way of
+// writing a call), C17_over.cc (get_multi lists, constructors, getter subsets), C17_more.cc (sizes, contexts).
 // Compiled with -fno-access-control: the private containers are read only to check that nothing
-// beyond what the public getters show was stored ("classified exactly once").
+// beyond what the public getters show was stored ("classified exactly once") and which arguments are marked read.
 #include "C17_common.hh"
+#include "C17_absent.hh"
 
 using namespace c17;
 
@@ -202,145 +206,6 @@ void float_text_case(vf::Run& r, const std::string& text) {
 }
 
 
-// ---------------------------------------------------------------------------------------------------
-// getters x assert_none_unused
-// ---------------------------------------------------------------------------------------------------
-struct PoolArg { const char* token; };
-const PoolArg POOL[7] = {{"7"}, {"300"}, {"--n=5"}, {"--n=6"}, {"--f=1.5"}, {"-v"}, {"--s=str"}};
-enum { G_STR_P0, G_STR_P1_NOTHROW, G_STR_S, G_STR_N_THROW, G_MULTI_STR_N, G_BOOL_V, G_INT_N, G_INT_N_DEF, G_MULTI_INT_N, G_DBL_F, G_DBL_F_DEF, G_MULTI_DBL_F, G_INT_P0, G_U16_P1_DEF, NGETTERS };
-const char* GETTER_NAME[NGETTERS] = {"get<string>(0)", "get<string>(1,false)", "get<string>(\"s\")", "get<string>(\"n\",true)", "get_multi<string>(\"n\")", "get<bool>(\"v\")",
-    "get<int>(\"n\")", "get<int>(\"n\",99)", "get_multi<int>(\"n\")", "get<double>(\"f\")", "get<double>(\"f\",2.5)", "get_multi<double>(\"f\")", "get<int64_t>(0)", "get<uint16_t>(1,42)"};
-
-std::string join_strs(const std::vector<std::string>& v) {
-  std::string s;
-  for (auto& x : v) s += x + ",";
-  return s;
-}
-
-void unused_case(vf::Run& r, unsigned argmask, unsigned getmask) {
-  std::vector<std::string> tokens;
-  for (int i = 0; i < 7; i++) if (argmask & (1u << i)) tokens.push_back(POOL[i].token);
-  auto getters_str = [&] {
-    std::string s;
-    for (int g = 0; g < NGETTERS; g++) if (getmask & (1u << g)) s += std::string(s.empty() ? "" : "; ") + GETTER_NAME[g];
-    return s.empty() ? std::string("(none)") : s;
-  };
-  if (r.wants_desc()) r.desc("Arguments(" + list_str(tokens) + "), getters called: " + getters_str() + ", then assert_none_unused()");
-  // reference state
-  std::vector<std::string> pos;
-  std::vector<std::string> nvals;
-  bool has_f = argmask & 16, has_v = argmask & 32, has_s = argmask & 64;
-  if (argmask & 1) pos.push_back("7");
-  if (argmask & 2) pos.push_back("300");
-  if (argmask & 4) nvals.push_back("5");
-  if (argmask & 8) nvals.push_back("6");
-  std::vector<bool> pos_used(pos.size(), false);
-  bool n_used = nvals.empty(), f_used = !has_f, v_used = !has_v, s_used = !has_s;
-  bool dontcare = false;  // a single-value getter applied to a repeated option: outcome not settled by the statement
-
-  Arguments a(tokens);
-  r.nontriv();
-  bool bad = false;
-  for (int g = 0; g < NGETTERS; g++) {
-    if (!(getmask & (1u << g))) continue;
-    std::string got, want;
-    std::string oc;
-    switch (g) {
-      case G_STR_P0:
-        oc = vf::outcome([&] { got = a.get<std::string>((size_t)0); });
-        want = pos.size() > 0 ? "ok:" + pos[0] : "out_of_range:";
-        if (pos.size() > 0) pos_used[0] = true;
-        break;
-      case G_STR_P1_NOTHROW:
-        oc = vf::outcome([&] { got = a.get<std::string>((size_t)1, false); });
-        want = pos.size() > 1 ? "ok:" + pos[1] : "ok:";
-        if (pos.size() > 1) pos_used[1] = true;
-        break;
-      case G_STR_S:
-        oc = vf::outcome([&] { got = a.get<std::string>("s"); });
-        want = has_s ? "ok:str" : "ok:";
-        s_used = true;
-        break;
-      case G_STR_N_THROW:
-        oc = vf::outcome([&] { got = a.get<std::string>("n", true); });
-        if (nvals.size() > 1) dontcare = true;
-        want = nvals.size() == 1 ? "ok:" + nvals[0] : "out_of_range:";
-        if (nvals.size() == 1) n_used = true;
-        break;
-      case G_MULTI_STR_N:
-        oc = vf::outcome([&] { got = join_strs(a.get_multi<std::string>("n")); });
-        want = "ok:" + join_strs(nvals);
-        n_used = true;
-        break;
-      case G_BOOL_V:
-        oc = vf::outcome([&] { got = a.get<bool>("v") ? "true" : "false"; });
-        want = has_v ? "ok:true" : "ok:false";
-        v_used = true;
-        break;
-      case G_INT_N:
-        oc = vf::outcome([&] { got = std::to_string(a.get<int>("n")); });
-        if (nvals.size() > 1) dontcare = true;
-        want = nvals.size() == 1 ? "ok:" + nvals[0] : "out_of_range:";
-        if (nvals.size() == 1) n_used = true;
-        break;
-      case G_INT_N_DEF:
-        oc = vf::outcome([&] { got = std::to_string(a.get<int>("n", 99)); });
-        if (nvals.size() > 1) dontcare = true;
-        want = nvals.size() == 1 ? "ok:" + nvals[0] : "ok:99";
-        if (nvals.size() == 1) n_used = true;
-        break;
-      case G_MULTI_INT_N:
-        oc = vf::outcome([&] { std::vector<std::string> v; for (int x : a.get_multi<int>("n")) v.push_back(std::to_string(x)); got = join_strs(v); });
-        want = "ok:" + join_strs(nvals);
-        n_used = true;
-        break;
-      case G_DBL_F:
-        oc = vf::outcome([&] { got = vf::fmt("%g", a.get<double>("f")); });
-        want = has_f ? "ok:1.5" : "out_of_range:";
-        f_used = true;
-        break;
-      case G_DBL_F_DEF:
-        oc = vf::outcome([&] { got = vf::fmt("%g", a.get<double>("f", std::optional<double>(2.5))); });
-        want = has_f ? "ok:1.5" : "ok:2.5";
-        f_used = true;
-        break;
-      case G_MULTI_DBL_F:
-        oc = vf::outcome([&] { std::vector<std::string> v; for (double x : a.get_multi<double>("f")) v.push_back(vf::fmt("%g", x)); got = join_strs(v); });
-        want = has_f ? "ok:1.5," : "ok:";
-        f_used = true;
-        break;
-      case G_INT_P0:
-        oc = vf::outcome([&] { got = std::to_string(a.get<int64_t>((size_t)0)); });
-        want = pos.size() > 0 ? "ok:" + pos[0] : "out_of_range:";
-        if (pos.size() > 0) pos_used[0] = true;
-        break;
-      case G_U16_P1_DEF:
-        oc = vf::outcome([&] { got = std::to_string(a.get<uint16_t>((size_t)1, (uint16_t)42)); });
-        want = pos.size() > 1 ? "ok:" + pos[1] : "ok:42";
-        if (pos.size() > 1) pos_used[1] = true;
-        break;
-    }
-    r.counters["getter_calls"]++;
-    std::string have = oc + ":" + (oc == "ok" ? got : "");
-    bool single_on_repeated = (g == G_STR_N_THROW || g == G_INT_N || g == G_INT_N_DEF) && nvals.size() > 1;
-    // get_multi on an absent option: an empty vector (library convention) or out_of_range are both within the statement
-    bool multi_absent_ok = (g == G_MULTI_STR_N || g == G_MULTI_INT_N) ? (nvals.empty() && oc == "out_of_range") : (g == G_MULTI_DBL_F && !has_f && oc == "out_of_range");
-    if (!single_on_repeated && !multi_absent_ok && have != want) {
-      bad = true;
-      r.fail(std::string("getters:") + GETTER_NAME[g] + ":wrong-result", [&] { return "Arguments(" + list_str(tokens) + "), getters " + getters_str() + ": " + GETTER_NAME[g] + " -> " + have + ", expected " + want; });
-    }
-  }
-  bool all_used = n_used && f_used && v_used && s_used;
-  for (bool u : pos_used) all_used = all_used && u;
-  std::string oc1 = vf::outcome([&] { a.assert_none_unused(); });
-  std::string oc2 = vf::outcome([&] { a.assert_none_unused(); });
-  if (dontcare) { r.ok("single-value getter on a repeated option (executed, not compared)"); return; }
-  if (oc1 != oc2) { bad = true; r.fail("assert_none_unused:not-idempotent", [&] { return "Arguments(" + list_str(tokens) + "), getters " + getters_str() + ": first call " + oc1 + ", second " + oc2; }); }
-  if (all_used && oc1 != "ok") { bad = true; r.fail("assert_none_unused:throws-though-everything-was-read", [&] { return "Arguments(" + list_str(tokens) + "), getters " + getters_str() + ": " + oc1; }); }
-  if (!all_used && oc1 != "invalid_argument") { bad = true; r.fail("assert_none_unused:silent-though-an-argument-was-never-read", [&] { return "Arguments(" + list_str(tokens) + "), getters " + getters_str() + ": " + oc1; }); }
-  if (!bad) r.ok(tokens.empty() ? "nothing supplied" : all_used ? "everything read: no throw" : "something unread: invalid_argument");
-}
-
 }  // namespace
 
 // =====================================================================================================
@@ -398,6 +263,39 @@ VF_SECTION(shell, 8, 8, 120) {
       }
     }
   }
+  // histories: the tokeniser keeps nothing between calls.  Every ordered pair (A, B) of lines, A also from the
+  // lines that make it throw (unterminated quote, dangling backslash), executed as A, B, A.
+  {
+    struct HLine { std::string line; bool settled; std::vector<std::string> tokens; };
+    std::vector<HLine> H = {
+        {"", true, {}}, {"a", true, {"a"}}, {"a b", true, {"a", "b"}}, {"'a b' c", true, {"a b", "c"}}, {"\"x\\\"y\" z", true, {"x\"y", "z"}}, {"a\\ b", true, {"a b"}},
+        {"\t a \t", true, {"a"}}, {"--n=v -xy", true, {"--n=v", "-xy"}}, {std::string(300, 'a') + " " + std::string(70, 'b') + "\t'" + std::string(40, ' ') + "'", true, {std::string(300, 'a'), std::string(70, 'b'), std::string(40, ' ')}},
+        {"\"abc", false, {}}, {"'abc def", false, {}}, {"abc\\", false, {}}, {"a \"b c", false, {}}, {"x 'y", false, {}}, {"\"a\\", false, {}}};
+    // (each step makes exactly ONE tokenising call: split_args in variant 0, the string constructor in variant 1)
+    for (int variant = 0; variant < 2; variant++) for (size_t ia = 0; ia < H.size(); ia++) for (size_t ib = 0; ib < H.size(); ib++) {
+      if (!H[ib].settled) continue;
+      if (!r.take()) continue;
+      const char* fn = variant ? "Arguments(line)" : "split_args(line)";
+      if (r.wants_desc()) r.desc(std::string(fn) + " history A, B, A with A = " + short_show(H[ia].line) + ", B = " + short_show(H[ib].line));
+      r.nontriv();
+      bool bad = false;
+      const HLine* seq[3] = {&H[ia], &H[ib], &H[ia]};
+      for (int step = 0; step < 3 && !bad; step++) {
+        const HLine& h = *seq[step];
+        std::vector<std::string> split;
+        std::optional<Arguments> a;
+        r.poison_errno();
+        std::string oc = variant ? vf::outcome([&] { a.emplace(h.line); }) : vf::outcome([&] { split = phosg::split_args(h.line); });
+        if (!h.settled) {
+          if (oc != "ok" && oc != "runtime_error") { bad = true; r.fail("split_args:unexpected-exception-type", [&] { return std::string(fn) + " on " + short_show(h.line) + " threw " + oc; }); }
+          continue;
+        }
+        bool same = oc == "ok" && (variant ? snapshot(*a) == ref_classify(h.tokens) : split == h.tokens);
+        if (!same) { bad = true; r.fail("split_args:history", [&] { return vf::fmt("call #%d of A, B, A (A = ", step + 1) + short_show(H[ia].line) + ", B = " + short_show(H[ib].line) + "): " + fn + " -> " + oc + " " + (variant ? (a ? ref_str(snapshot(*a)) : std::string()) : list_str(split)) + ", a shell yields " + list_str(h.tokens); }); }
+      }
+      if (!bad) r.ok(H[ia].settled ? "tokeniser history: as the reference" : "tokeniser history after a rejected line: as the reference");
+    }
+  }
   // unterminated quotes / dangling backslash / empty quoted arguments: executed for memory safety and
   // termination only (the statement does not settle them)
   static const char* EXEC_ONLY[] = {"\"abc", "'abc", "abc\\", "a \"\" b", "'' x", "\"\"", "a\\", "\"a\\", "--n=\"", "\\"};
@@ -409,7 +307,7 @@ VF_SECTION(shell, 8, 8, 120) {
     if (oc != "ok" && oc != "runtime_error") r.fail("split_args:unexpected-exception-type", [&] { return "Arguments(" + vf::show(line) + ") threw " + oc; });
     else r.ok(std::string("don't-care line: ") + oc);
   }
-  r.bound = "every list of 0..3 logical tokens from {a, --n=v, -xy, 'a b', '--n=v w', it's, say \"hi\", b\\c, --m=<TAB>7} x every combination of shell renderings (bare, double-quoted, single-quoted, backslash-escaped, half-quoted) x 4 separators x leading/trailing blanks";
+  r.bound = "every list of 0..3 logical tokens from {a, --n=v, -xy, 'a b', '--n=v w', it's, say \"hi\", b\\c, --m=<TAB>7} x every combination of shell renderings (bare, double-quoted, single-quoted, backslash-escaped, half-quoted) x 4 separators x leading/trailing blanks; histories A, B, A over 15 lines (6 of them rejected: unterminated quote, dangling backslash) x 9 settled lines, through split_args and through the string constructor (one tokenising call per step)";
 }
 
 VF_SECTION(ints, 16, 16, 120) {
@@ -424,11 +322,12 @@ VF_SECTION(ints, 16, 16, 120) {
         if (!r.take()) continue;
         std::string text = render(n, style);
         if (r.wants_desc()) r.desc(vf::fmt("n=%lld rendered as %s: ", (long long)n, style_name[style]) + vf::show(text) + vf::fmt(" read with IntFormat::%s as int8/uint8/int16/uint16/int32/uint32%s", fmt_name(f), near_boundary ? " through all five access paths" : ""));
-        int_text_case(r, text, f, T_NARROW, near_boundary);
+        int_text_case(r, text, f, r.thorough() ? T_FIXED : T_NARROW, near_boundary || r.thorough());
       }
     }
   }
-  r.bound = "every n in [-70000,70000] x {decimal, 0x-hex, bare hex, 0-octal, bare octal} x IntFormat {DEFAULT,DECIMAL,HEX,OCTAL} x {int8,uint8,int16,uint16,int32,uint32} via get<T>(name,fmt); near type boundaries also get_multi, get with default, positional and positional with default";
+  r.bound = r.thorough() ? "every n in [-70000,70000] x {decimal, 0x-hex, bare hex, 0-octal, bare octal} x IntFormat {DEFAULT,DECIMAL,HEX,OCTAL} x the eight fixed-width targets x five access paths (get, get_multi, get with default, positional, positional with default)"
+                         : "every n in [-70000,70000] x {decimal, 0x-hex, bare hex, 0-octal, bare octal} x IntFormat {DEFAULT,DECIMAL,HEX,OCTAL} x {int8,uint8,int16,uint16,int32,uint32} via get<T>(name,fmt); near type boundaries also get_multi, get with default, positional and positional with default";
 }
 
 VF_SECTION(bounds, 8, 8, 120) {
@@ -457,7 +356,6 @@ VF_SECTION(bounds, 8, 8, 120) {
       }
     }
   }
-  r.counters["boundary_numerals"] += N.size();
   // garbage around numerals
   static const char* NUMS[] = {"", "0", "7", "12", "-3", "0x1f", "017", "ff", "-0", "00", "08", "0x", "-", "9", "0X1F", "FF", "--3", "0x-1", "-0x10", "0b101", "1'000", "1_000", "١٢"};
   static const char* AFFIX[] = {"", "x", "+", "-", ".", "0x", "1 ", "_", " ", "\t", "0", "e1", "\n"};
@@ -512,30 +410,6 @@ VF_SECTION(floats, 8, 8, 120) {
   r.bound = "all literals [+-]d[d][.d[d]][e[+-]d[d]] over digits {0,1,9} (17316) and 36 further shapes x 13 prefixes x 13 suffixes; get<double>/get<float>/get<long double> through five access paths each; value vs std::from_chars within 1 ulp (long double compared at double precision)";
 }
 
-VF_SECTION(unused, 16, 16, 120) {
-  r.note("assert_none_unused");
-  // thorough: every subset of the 14 getters.  quick: every subset of two 12-getter families that
-  // together contain all 14 (each family leaves out two getters whose sibling stays in)
-  std::vector<unsigned> families;
-  if (r.thorough()) families = {(1u << NGETTERS) - 1};
-  else families = {((1u << NGETTERS) - 1) & ~((1u << G_STR_N_THROW) | (1u << G_U16_P1_DEF)), ((1u << NGETTERS) - 1) & ~((1u << G_STR_S) | (1u << G_INT_P0))};
-  for (size_t fi = 0; fi < families.size(); fi++) {
-    std::vector<int> members;
-    for (int g = 0; g < NGETTERS; g++) if (families[fi] & (1u << g)) members.push_back(g);
-    for (unsigned argmask = 0; argmask < 128; argmask++) {
-      if (__builtin_popcount(argmask) > 4) continue;
-      for (unsigned sub = 0; sub < (1u << members.size()); sub++) {
-        unsigned getmask = 0;
-        for (size_t k = 0; k < members.size(); k++) if (sub & (1u << k)) getmask |= 1u << members[k];
-        // second family: subsets already seen in the first one are skipped
-        if (fi > 0 && (getmask & ~families[0]) == 0) continue;
-        if (!r.take()) continue;
-        unused_case(r, argmask, getmask);
-      }
-    }
-  }
-  r.bound = r.thorough() ? "every set of <=4 arguments from {7, 300, --n=5, --n=6, --f=1.5, -v, --s=str} (99 sets) x every subset of 14 getters (16384), then assert_none_unused() twice"
-                         : "every set of <=4 arguments from {7, 300, --n=5, --n=6, --f=1.5, -v, --s=str} (99 sets) x every subset of two overlapping 12-getter families covering all 14 getters (7168 subsets), then assert_none_unused() twice";
-}
+VF_SECTION(absent, 2, 2, 120) { c17::absent_section(r); }
 
 VF_MAIN()
